@@ -130,8 +130,8 @@ DeclWhy(p) ==
   IF \E i, j \in 1..Len(ts) : i # j /\ ts[i].name = ts[j].name THEN "type declared twice"
   ELSE IF \E i \in 1..Len(ts) : \E a, b \in 1..Len(ts[i].xtors) : a # b /\ ts[i].xtors[a].name = ts[i].xtors[b].name THEN "xtor declared twice in one type"
   ELSE IF \E i \in 1..Len(ts) : \E a \in 1..Len(ts[i].xtors) : \E f \in 1..Len(ts[i].xtors[a].args) :
-            LET g == ts[i].xtors[a].args[f] IN ~((g.chi = "ext" /\ g.ty = "i64") \/ (g.chi \in {"prd", "cns"} /\ HasType(p, g.ty)))
-       THEN "xtor argument of an undeclared type or ill-formed kind"
+            LET g == ts[i].xtors[a].args[f] IN ~((g.chi = "ext" /\ g.ty = "i64") \/ (g.chi \in {"prd", "cns"} /\ g.ty # "i64"))
+       THEN "xtor argument of an ill-formed kind"
   ELSE IF \E i, j \in 1..Len(Q(p).defs) : i # j /\ Q(p).defs[i].name = Q(p).defs[j].name THEN "definition declared twice"
   ELSE ""
 
